@@ -45,6 +45,13 @@ CHECKS = [
   "text": _WORKER + " Safety oracle: bodies in progress <= tasks_limit at every instant. Progress oracle: no free slot + deliverable message "
           "without a start for longer than a per-broker pickup allowance; all jobs start within a stated bound ('eventually' = within the bound).",
   "note": _MODEL + _SRV},
+ {"property_id": "C12", "level": "exploration", "design_ref": "DESIGN.md §4 C12",
+  "technique": "property-based testing of time-to-live boundaries on a virtual clock (delivery instant = expiry + generated epsilon, exact 0 included), broker and worker level, 3 brokers",
+  "text": "Generated ttl/age/kind (immediate, delayed before/after expiry, retried, rescheduled, no ttl) with the consume (or worker start) "
+          "instant placed at expiry+eps; oracle: after expiry never handed over / executed, dead-lettered and retrievable from the DEAD category "
+          "with identical content; before expiry delivered and never dead-lettered; cases inside the latency slack band counted unconstrained; "
+          "a broker spinning on an expiring message (step watchdog) is reported.",
+  "note": _MODEL + _SRV},
  {"property_id": "C13", "level": "exploration", "design_ref": "DESIGN.md §4 C13",
   "technique": "scenario property-based testing of stored results against the model's latest-execution outcome, plus fault-injection differential on store_bucket",
   "text": _WORKER + " Fault sub-check makes the k-th result store_bucket call raise and requires dispositions and final places to equal "
